@@ -639,7 +639,9 @@ func streamWrappers(rep *Report, tier string, seed uint64) {
 					redact.RegisterRedactErrorFn(nil)
 				}
 				id := 0
-				x := genVal(r, 0, GenOpts{MaxDepth: 3, NoPanics: true}, &id)
+				// one case in five may contain panicking methods (payloads of every classification): the
+				// report of a caught panic under Unsafe() must be inside envelopes like everything else
+				x := genVal(r, 0, GenOpts{MaxDepth: 3, NoPanics: !r.Chance(20)}, &id)
 				d := genDirective(r)
 				if strings.HasSuffix(d, "w") || strings.HasSuffix(d, "T") || strings.HasSuffix(d, "p") || excludedDirective(d) {
 					d = "%v"
@@ -689,7 +691,7 @@ func streamWrappers(rep *Report, tier string, seed uint64) {
 					} else if len(bytes.Trim(dropEnvs(mid), "\n")) != 0 {
 						orc = append(orc, fmt.Sprintf("C06:rendering of %s not entirely inside envelopes: %q", lbl, mid))
 					}
-					if !x.redactSpecific() && !x.hasKind(KErr, KErrFormatter, KErrStringer) {
+					if !x.redactSpecific() && !x.panics() && !x.hasKind(KErr, KErrFormatter, KErrStringer) {
 						ref, _ := fSprintf(d, []interface{}{xv})
 						if !bytes.Equal(realStrip(mid), escQ(ref)) {
 							orc = append(orc, fmt.Sprintf("C06:characters of Unsafe(x) differ from fmt's for x: %q vs %q", realStrip(mid), escQ(ref)))
@@ -698,7 +700,7 @@ func streamWrappers(rep *Report, tier string, seed uint64) {
 				}
 				emit(Case{Real: fmt.Sprintf("Sprintf(%q, %s) x=%s => %s", d, lbl, x, out), Oracle: orc, Nontriv: true, Kind: "unsafe"})
 				// Safe(x) for x without own classification
-				if !x.ownClass() && !x.hasKind(KErr, KErrFormatter, KErrStringer) {
+				if !x.ownClass() && !x.panics() && !x.hasKind(KErr, KErrFormatter, KErrStringer) {
 					var o2 []string
 					sw := interface{}(redact.Safe(xv))
 					lbl := "Safe(x)"
